@@ -53,6 +53,19 @@ _rolling_hash2_init(struct isal_rh_state2 *state, uint32_t w)
                 state->table2[i] = (v << w) | (v >> (64 - w));
         }
         state->w = w;
+
+        /*
+         * Start from an all-zero window, so that a run that is not preceded by a reset (the
+         * window passed to reset is optional) depends only on the data and not on what the
+         * state object's memory held before.
+         */
+        v = 0;
+        for (i = 0; i < w; i++) {
+                v = (v << 1) | (v >> (64 - 1));
+                v ^= state->table1[0];
+        }
+        state->hash = v;
+        memset(state->history, 0, sizeof(state->history));
         return 0;
 }
 
